@@ -522,6 +522,17 @@ def finish(ctx, level_note_assumptions=()):
             recs = ctx._execute_raw(driver, cases, nproc=1, label="reexec")
             bad2 = ctx._validate_raw(module, recs, cfg, env=venv)
             reproduced = {rec["cid"] for rec, _ in bad2}
+            # seen only in a second pass: the same cases alone, in an interpreter prepared as the second pass prepares it
+            # (library warmed up, names handed over as instances of a subclass of str)
+            second = [r["record"]["cid"] for r in rejs if r["record"]["cid"] not in reproduced
+                      and str(r["record"].get("_x", {}).get("pass") or ctx.pass_of_cid(r["record"]["cid"])).endswith("#2")]
+            if second:
+                recs = ctx._execute_raw(driver, [c for c in cases if c["cid"] in set(second)], nproc=1, label="reexec_warm", warm=True)
+                badw = ctx._validate_raw(module, recs, cfg, env=venv)
+                for rec, clause in badw:
+                    rec.setdefault("_x", {})["warm"] = True
+                bad2 = bad2 + badw
+                reproduced |= {rec["cid"] for rec, _ in badw}
             # what does not reproduce on its own may depend on what the interpreter did before: re-run the pass it was seen in,
             # in the same order and the same split over workers (deterministic), and keep the cases in question
             left = [r for r in rejs if r["record"]["cid"] not in reproduced]
@@ -565,7 +576,7 @@ def finish(ctx, level_note_assumptions=()):
         doc = {"property": ctx.pid, "tier": ctx.tier, "seed": ctx.seed,
                "cases": [c for c in ctx.cases if c["cid"] in set(cids)],
                "rejected": [{"clause": v["clause"], "module": v["module"], "driver": v["driver"], "cfg": v["cfg"],
-                             "record": v["record"]} for v in violations[:50]],
+                             "warm": bool(v["record"].get("_x", {}).get("warm")), "record": v["record"]} for v in violations[:50]],
                "n_rejected_total": len(violations)}
         # a violation that shows only after what the interpreter did before: the replay carries that whole sequence of cases
         seqs = []
@@ -574,7 +585,7 @@ def finish(ctx, level_note_assumptions=()):
             x = v["record"].get("_x", {})
             if x.get("order_dependent") and len(seqs) < 3:
                 order = ctx.sequence_before(x["pass"], v["record"]["cid"])
-                seqs.append({"driver": v["driver"], "module": v["module"], "cfg": v["cfg"], "for_cid": v["record"]["cid"],
+                seqs.append({"driver": v["driver"], "module": v["module"], "cfg": v["cfg"], "for_cid": v["record"]["cid"], "warm": str(x["pass"]).endswith("#2"),
                              "cases": [bycid[c] for c in order if c in bycid]})
         if seqs:
             doc["sequences"] = seqs
@@ -667,16 +678,16 @@ def main(argv=None):
             ctx.is_replay = True
             groups = {}
             for rj in doc["rejected"]:
-                groups.setdefault((rj["driver"], rj["module"], rj["cfg"]), set()).add(rj["record"]["cid"])
-            for (driver, module, cfg), cids in groups.items():
+                groups.setdefault((rj["driver"], rj["module"], rj["cfg"], bool(rj.get("warm"))), set()).add(rj["record"]["cid"])
+            for (driver, module, cfg, warm), cids in groups.items():
                 cases = [dict(c) for c in doc["cases"] if c["cid"] in cids]
                 ctx.cases.extend(cases)
-                recs = ctx._execute_raw(driver, cases, nproc=1, label="replay")
+                recs = ctx._execute_raw(driver, cases, nproc=1, label="replay", warm=warm)
                 ctx.validate(module, recs, driver=driver, cfg=cfg)
             for sq in doc.get("sequences", []):
                 cases = [dict(c) for c in sq["cases"]]
                 ctx.cases.extend(cases)
-                recs = ctx._execute_raw(sq["driver"], cases, nproc=1, label="replay_seq")
+                recs = ctx._execute_raw(sq["driver"], cases, nproc=1, label="replay_seq", warm=bool(sq.get("warm")))
                 ctx.validate(sq["module"], recs, driver=sq["driver"], cfg=sq["cfg"])
             ctx.rule = "replay of " + a.replay
         else:
